@@ -72,10 +72,10 @@ func pow(b, e int) int {
 }
 
 func genHistory(t *rapid.T, withNames, withTableOps bool) history {
-	h := history{Cfg: histCfg{LAN: rapid.IntRange(0, 2).Draw(t, "lan"), Timing: rapid.IntRange(0, 2).Draw(t, "timing"), Quiet: rapid.SampledFrom([]int{0, 0, 1, 2}).Draw(t, "quiet")}}
+	h := history{Cfg: histCfg{LAN: rapid.IntRange(0, 2).Draw(t, "lan"), Timing: rapid.IntRange(0, 2).Draw(t, "timing"), Quiet: rapid.SampledFrom([]int{0, 0, 1, 2}).Draw(t, "quiet"), Full: rapid.IntRange(0, 3).Draw(t, "full") == 0}}
 	n := rapid.IntRange(5, 60).Draw(t, "nops")
-	clientish := []int{mC1, mC1, mC2, mC2, mC3, mRouter}
-	anyMAC := []int{mC1, mC1, mC1, mC2, mC2, mC3, mRouter, mOwn, mMcast}
+	clientish := []int{mC1, mC1, mC2, mC2, mC3, mC4, mRouter}
+	anyMAC := []int{mC1, mC1, mC1, mC2, mC2, mC3, mC4, mC5, mRouter, mOwn, mMcast}
 	ip4s := []int{i4A, i4A, i4B, i4B, i4C, i4Host, i4Router, i4Off, i4Zero, i4Bcast}
 	names := []string{"", "n1", "n2", "a-much-longer-host-name"}
 	for i := 0; i < n; i++ {
